@@ -3,6 +3,7 @@
 # Confirms a seeded change: demo passes on clean tree, tests pass with the
 # change, demo fails with the change; then runs our quick check(s) against it.
 set -u
+VERIF_HOME="$(cd "$(dirname "$(realpath "$0")")/.." && pwd)"
 patch="$(realpath "$1")"; demo="$(realpath "$2")"; shift 2
 wt="$(mktemp -d /tmp/statham_seed_XXXXXX)"; rmdir "$wt"
 git -C /repo worktree add -q --detach "$wt" HEAD || exit 9
@@ -13,7 +14,7 @@ PYTHONPATH="$wt" timeout 300 /venv/bin/python "$demo" >/dev/null 2>&1; echo "dem
 if ! git -C "$wt" apply "$patch"; then echo "PATCH-DOES-NOT-APPLY"; exit 8; fi
 PYTHONPATH="$wt" timeout 900 /venv/bin/python -m pytest -q -p no:cacheprovider --continue-on-collection-errors 2>&1 | tail -1 | sed 's/^/tests: /'
 PYTHONPATH="$wt" timeout 300 /venv/bin/python "$demo" >/dev/null 2>&1; echo "demo_patched_exit=$?"
-cd /verif
+cd "$VERIF_HOME"
 for prop in "$@"; do
   out="$(VERIF_REPO="$wt" VERIF_REPLAY_DIR="$wt/.replays" VERIF_NO_DET=1 timeout 1500 bin/check "$prop" ${TIER:-quick} 2>&1)"; rc=$?
   echo "check $prop ${TIER:-quick} exit=$rc :: $(echo "$out" | grep -E "^(violation|HARNESS|[A-Za-z]*Error)" | head -4 | cut -c1-400)"
